@@ -2,6 +2,7 @@
   C12 — copy=True isolates, copy=False shares: no hidden aliasing and no hidden copies.
 -/
 import NiVerif.Model.Heap
+import NiVerif.Gen.AsarrayShim
 
 namespace Props.C12
 open Model.Heap
@@ -453,4 +454,59 @@ example : (asarray [[1, 2, 3, 4]] (.arr ⟨0, [0, 1, 2, 3], 7⟩) none false) = 
 example : (asarray [[1, 2, 3, 4]] (.arr ⟨0, [3, 1], 7⟩) (some 7) true) = .ok ([[1, 2, 3, 4], [4, 2]], ⟨1, [0, 1], 7⟩) := by decide
 example : asarray [[1, 2]] (.arr ⟨0, [0, 1], 7⟩) (some 8) false = .error .ValueError := by decide
 
+
+/-! ### T26: the NumPy 1.x shim (Gen/AsarrayShim.lean) implements the NumPy 2 copy rule -/
+
+/-- **The shim is the rule.**  For every heap, source (array of any dtype, ndarray-subclass instance or not, owning its data or
+    not, or a non-array sequence), requested dtype and explicit copy flag, the generated `_numpy1x.asarray` returns exactly what
+    `Model.Heap.asarray` (NumPy 2's `asarray(a, dtype, copy=flag)`) returns: the same heap and reference, or ValueError. -/
+theorem gen_shim_eq_model (h : Heap) (a : Src) (sub owns : Bool) (dt : Option Nat) (c : Bool) :
+    Gen.AsarrayShim.asarray h a sub owns dt (some c) = asarray h a dt c := by
+  unfold Gen.AsarrayShim.asarray asarray npAsarrayLegacy npCopy
+  cases a with
+  | seq vals => cases c <;> simp
+  | arr r =>
+    by_cases hd : dt.getD r.dtype = r.dtype
+    · cases c <;> cases sub <;> cases owns <;> simp [hd, alloc]
+    · cases c <;> simp [hd, alloc]
+
+/-- without a copy argument (`copy=None`) the shim never fails and copies only when it must -/
+theorem gen_shim_default (h : Heap) (a : Src) (sub owns : Bool) (dt : Option Nat) :
+    Gen.AsarrayShim.asarray h a sub owns dt none =
+      .ok ((npAsarrayLegacy h a sub owns dt).heap, (npAsarrayLegacy h a sub owns dt).ref) := by
+  unfold Gen.AsarrayShim.asarray
+  simp
+
+/-- hence the three statements of the rule hold for the shim: `copy=True` always succeeds with a fresh array … -/
+theorem gen_shim_copy_true_fresh (h h' : Heap) (a : Src) (sub owns : Bool) (dt : Option Nat) (r' : Ref)
+    (hok : Gen.AsarrayShim.asarray h a sub owns dt (some true) = .ok (h', r')) : r'.cell = h.length := by
+  rw [gen_shim_eq_model] at hok
+  exact (copy_true_fresh h h' a dt r' hok).1
+
+/-- … and `copy=False` either hands back the very array or raises ValueError, never a silent copy -/
+theorem gen_shim_no_silent_copy (h : Heap) (a : Src) (sub owns : Bool) (dt : Option Nat) :
+    Gen.AsarrayShim.asarray h a sub owns dt (some false) = .error .ValueError ∨
+    ∃ r, a = .arr r ∧ Gen.AsarrayShim.asarray h a sub owns dt (some false) = .ok (h, r) := by
+  rw [gen_shim_eq_model]
+  exact copy_false_outcomes h a dt
+
+/-- **Call sites.**  Every factory that takes a `copy` argument hands exactly that argument and its `dtype` argument to the
+    package's `asarray`; `from_port(s)` convert without a copy flag (their data is then unpacked into a new array). -/
+theorem gen_sites_pass_flag :
+    ∀ s ∈ Gen.AsarrayShim.asarray_sites,
+      (s.2.1 = "from_port" ∨ s.2.1 = "from_ports") ∧ s.2.2.2.1 = "port_dtype" ∧ s.2.2.2.2 = "-" ∨
+      (s.2.1 ≠ "from_port" ∧ s.2.1 ≠ "from_ports") ∧ s.2.2.2.1 = "dtype" ∧ s.2.2.2.2 = "copy" := by
+  decide
+
+theorem gen_sites_cover :
+    (Gen.AsarrayShim.asarray_sites.map fun s => (s.1, s.2.1)).eraseDups =
+      [("DigitalWaveform", "from_lines"), ("DigitalWaveform", "from_port"), ("DigitalWaveform", "from_ports"),
+       ("NumericWaveform", "from_array_1d"), ("NumericWaveform", "from_array_2d"), ("Spectrum", "from_array_1d"),
+       ("Spectrum", "from_array_2d"), ("XYData", "from_arrays_1d")] := by decide
+
+theorem gen_switch : Gen.AsarrayShim.asarray_switch = ("numpy_version_info >= (2, 0, 0)", "numpy.asarray", "nitypes._numpy1x.asarray") := by
+  decide
+
+example : Gen.AsarrayShim.asarray [[1, 2, 3]] (.arr ⟨0, [0, 1, 2], 4⟩) false true (some 8) (some false) = .error .ValueError := by decide
+example : Gen.AsarrayShim.asarray [[1, 2, 3]] (.arr ⟨0, [2, 0], 4⟩) true false none (some true) = .ok ([[1, 2, 3], [3, 1]], ⟨1, [0, 1], 4⟩) := by decide
 end Props.C12
